@@ -30,7 +30,7 @@ var (
 //   - integers are mathematical integers, float32 is the shortest decimal that round-trips in 32 bits
 //     (this only matters inside interface{} slots, where the dynamic type is chosen by the decoder);
 //   - a string that is not valid UTF-8 stands for its bytes; byte slices and byte arrays are bytes;
-//   - complex with imaginary part +0 is its real part, otherwise (-0 too) a 2-list;
+//   - complex with zero imaginary part (+0 or -0: they are equal in Go) is its real part, otherwise a 2-list;
 //   - named structs are objects (type name + aliased fields), anonymous structs are string-keyed maps;
 //   - map entries are unordered.
 //
@@ -190,7 +190,7 @@ func canon(sb *strings.Builder, v reflect.Value, path []pathEntry) {
 		if v.Kind() == reflect.Complex64 {
 			re, im = widen32(float32(re)), widen32(float32(im))
 		}
-		if im == 0 && !math.Signbit(im) {
+		if im == 0 {
 			sb.WriteString(fstr(re))
 		} else {
 			sb.WriteString("[" + fstr(re) + "," + fstr(im) + ",]")
